@@ -88,6 +88,10 @@ PROTO_SCENARIOS = [
     (False, [[2, 3, 1, 1, "p"], [3, 4, 2, 0, "q"], [1, 4, 0, 0, "p"], [1, 4, 0, 0, "q"]]),
     (True, [[7, 0, 1, 1, "p"], [7, 0, 1, 1, "q"], [1, 1, 1, 2, "p"], [3, 3, 3, 0, "p"]]),
     (True, [[6, 6, 1, 3, "p"], [1, 1, 4, 0, "p"], [3, 3, 2, 0, "q"]]),
+    # an origin-crossing area, two areas just before the origin that overlap it and an unrelated area elsewhere: the region sweep
+    # closes the first section early and folds the last section (two areas) into it across the origin
+    (True, [[7, 0, 1, 1, "p"], [4, 4, 1, 2, "p"], [5, 5, 0, 1, "q"], [2, 2, 0, 0, "p"]]),
+    (True, [[7, 0, 0, 1, "p"], [5, 5, 0, 1, "p"], [6, 6, 0, 0, "q"], [5, 6, 0, 0, "r"], [2, 3, 0, 0, "p"]]),
 ]
 
 
